@@ -354,6 +354,69 @@ pub fn check(prop: &str, tier: &str) -> i32 {
             }
         }
     }
+    // aged twin instances: two fresh instances that have each produced exactly K bytes of
+    // randomness (through the public generator accessor), then make the same calls; whatever an
+    // instance does to its generator after some amount of output, two instances must not end up
+    // on the same stream, and one instance must not come back to a stream it already produced
+    let mut aged_cases = 0u64;
+    {
+        use cosmian_crypto_core::reexport::rand_core::RngCore;
+        let mpk = cosmian_cover_crypt::MasterPublicKey::deserialize(&base_mpk).unwrap();
+        let ap = AccessPolicy::parse("A::x").unwrap();
+        let mut ks: Vec<usize> = vec![1 << 18, (1 << 18) + 64, 1 << 20, (1 << 22) + 12];
+        if thorough {
+            ks.extend([1 << 24, (1 << 26) + 4]);
+        }
+        if reduced {
+            ks.truncate(2);
+        }
+        let mut seen: HashMap<Vec<u8>, String> = HashMap::new();
+        'aged: for k in ks {
+            for twin in 0..2 {
+                let cc = Covercrypt::default();
+                let mut buf = [0u8; 4096];
+                let mut left = k;
+                while left > 0 {
+                    let n = left.min(buf.len());
+                    cc.rng().fill_bytes(&mut buf[..n]);
+                    left -= n;
+                }
+                let mut msk = MasterSecretKey::deserialize(&base_msk).expect("base msk");
+                let mut f: Fields = vec![];
+                for round in 0..3 {
+                    let _ = round;
+                    if let Ok((secret, enc)) = cc.encaps(&mpk, &ap) {
+                        f.push(("secret", secret.to_vec()));
+                        enc_fields(&ser(&enc), &mut f);
+                    }
+                    if let Ok((_, hdr)) = EncryptedHeader::generate(&cc, &mpk, &ap, Some(b"metadata"), None) {
+                        if let Ok(w) = WHeader::decode(&ser(&hdr)) {
+                            enc_fields(&w.enc.encode(), &mut f);
+                            if w.md.len() >= 12 {
+                                f.push(("AEAD nonce", w.md[..12].to_vec()));
+                            }
+                        }
+                    }
+                    if let Ok(usk) = cc.generate_user_secret_key(&mut msk, &ap) {
+                        if let Ok(w) = WUsk::decode(&ser(&usk)) {
+                            f.push(("user id", w.id.concat()));
+                        }
+                    }
+                }
+                aged_cases += 1;
+                for (kind, v) in f {
+                    let mut tagged = kind.as_bytes().to_vec();
+                    tagged.extend_from_slice(&v);
+                    let who = format!("instance #{twin} after {k} bytes of output");
+                    if let Some(prev) = seen.insert(tagged, who.clone()) {
+                        run.report(None, if kind == "AEAD nonce" { "C16.b" } else { "C16.a" }, &format!("aged instances: {who} and {prev} produced the same {kind}"), json!({"engine": "seqfresh-aged", "bytes": k}));
+                        break 'aged;
+                    }
+                }
+            }
+        }
+    }
+    run.set("aged_twin_instances", json!(aged_cases));
     // C16.e over every one-byte authentication data (and absent / empty / longer): whatever the
     // authentication data, the returned secret must not decrypt the metadata
     {
